@@ -1353,7 +1353,7 @@ func (w *World) returnTypes(fn *ssa.Function, idx int, visitorType string, depth
 		if !ok || idx >= len(ret.Results) {
 			return
 		}
-		if w.deadByExhaustiveSwitch(b, w.ctxTable()) != "" {
+		if w.deadByExhaustiveSwitch(b, w.ctxTable()) != "" || w.deadByInfeasibleFlag(b, 0) {
 			return
 		}
 		for t := range w.dynTypes(ret.Results[idx], visitorType, depth, seen, map[ssa.Value]bool{}) {
@@ -1921,6 +1921,72 @@ func (w *World) deadByExhaustiveSwitch(blk *ssa.BasicBlock, ctxs map[string]*Ctx
 	return ""
 }
 
+// deadByInfeasibleFlag: blk lies behind the "false" edge of a bool result of a repository function that hands back false only where
+// it cannot get (behind an exhaustive switch over a grammar rule's alternatives, or behind such a flag itself): `f, ok := build(ctx);
+// if ok { return f }; return nil` - the nil is not a value the function can return.
+func (w *World) deadByInfeasibleFlag(blk *ssa.BasicBlock, depth int) bool {
+	if depth > 3 {
+		return false
+	}
+	fn := blk.Parent()
+	for _, b := range fn.Blocks {
+		cond := branchCond(b)
+		if cond == nil {
+			continue
+		}
+		neg := false
+		c := cond
+		for {
+			if u, ok := c.(*ssa.UnOp); ok && u.Op == token.NOT {
+				neg = !neg
+				c = u.X
+				continue
+			}
+			break
+		}
+		ex, ok := c.(*ssa.Extract)
+		if !ok {
+			continue
+		}
+		if bt, ok := ex.Type().Underlying().(*types.Basic); !ok || bt.Kind() != types.Bool {
+			continue
+		}
+		call, ok := ex.Tuple.(*ssa.Call)
+		if !ok {
+			continue
+		}
+		g := call.Call.StaticCallee()
+		if g == nil || g.Blocks == nil || !w.isSubjectFunc(g) {
+			continue
+		}
+		falseSucc := 1
+		if neg {
+			falseSucc = 0
+		}
+		if !edgeDominates(b, falseSucc, blk) {
+			continue
+		}
+		never := true
+		forEachInstr(g, func(gb *ssa.BasicBlock, ins ssa.Instruction) {
+			ret, ok := ins.(*ssa.Return)
+			if !ok || ex.Index >= len(ret.Results) {
+				return
+			}
+			if k, ok := ret.Results[ex.Index].(*ssa.Const); ok && k.Value != nil && k.Value.String() == "true" {
+				return
+			}
+			if w.deadByExhaustiveSwitch(gb, w.ctxTable()) != "" || w.deadByInfeasibleFlag(gb, depth+1) {
+				return
+			}
+			never = false
+		})
+		if never {
+			return true
+		}
+	}
+	return false
+}
+
 func staticImplements(t types.Type, target types.Type) bool {
 	iface, ok := target.Underlying().(*types.Interface)
 	if !ok {
@@ -2221,6 +2287,34 @@ func (w *World) recursionBounded(caller, callee *ssa.Function, call ssa.CallInst
 			v = fa.X
 		}
 	}
+	// (a'') ... or the result of a helper that hands out nothing but the packet of an inline object (or nil)
+	for _, a := range args {
+		v := stripIdentity(a)
+		for i := 0; i < 4; i++ {
+			ld, ok := v.(*ssa.UnOp)
+			if !ok || ld.Op != token.MUL {
+				break
+			}
+			fa, ok := ld.X.(*ssa.FieldAddr)
+			if !ok {
+				break
+			}
+			v = stripIdentity(fa.X)
+		}
+		var h *ssa.Function
+		idx := 0
+		switch x := v.(type) {
+		case *ssa.Extract:
+			if c, ok := x.Tuple.(*ssa.Call); ok {
+				h, idx = c.Call.StaticCallee(), x.Index
+			}
+		case *ssa.Call:
+			h = x.Call.StaticCallee()
+		}
+		if h != nil && h != caller && w.isSubjectFunc(h) && w.yieldsOnlyInlinePackets(h, idx) {
+			return "descends into the packet a helper hands out for an inline object only (RefPacket on the IsIner edge, nil otherwise): inline objects form a finite tree", false
+		}
+	}
 	// (a') ... or an element of a local list that only ever receives such packets
 	for _, a := range args {
 		if w.elemOfInlineObjectList(stripIdentity(a)) {
@@ -2240,6 +2334,53 @@ func (w *World) recursionBounded(caller, callee *ssa.Function, call ssa.CallInst
 		}
 	}
 	return "", !anyGraph
+}
+
+// yieldsOnlyInlinePackets: result idx of h is, on every return, nil or the RefPacket of an object attribute on its IsIner edge.
+func (w *World) yieldsOnlyInlinePackets(h *ssa.Function, idx int) bool {
+	if h.Blocks == nil {
+		return false
+	}
+	n, good := 0, true
+	forEachInstr(h, func(b *ssa.BasicBlock, ins ssa.Instruction) {
+		ret, ok := ins.(*ssa.Return)
+		if !ok || idx >= len(ret.Results) {
+			return
+		}
+		var check func(v ssa.Value, from *ssa.BasicBlock, depth int) bool
+		check = func(v ssa.Value, from *ssa.BasicBlock, depth int) bool {
+			v = stripIdentity(v)
+			if k, ok := v.(*ssa.Const); ok && k.Value == nil {
+				return true
+			}
+			if ph, ok := v.(*ssa.Phi); ok && depth < 3 {
+				for i, e := range ph.Edges {
+					if !check(e, ph.Block().Preds[i], depth+1) {
+						return false
+					}
+				}
+				return true
+			}
+			ld, ok := v.(*ssa.UnOp)
+			if !ok || ld.Op != token.MUL {
+				return false
+			}
+			fa, ok := ld.X.(*ssa.FieldAddr)
+			if !ok {
+				return false
+			}
+			tn, fname, _, _ := fieldOf(fa)
+			if tn != "ObjectFieldAttribute" || fname != "RefPacket" {
+				return false
+			}
+			n++
+			return w.underIsIner(ld.Block(), fa.X) || w.underIsIner(from, fa.X)
+		}
+		if !check(ret.Results[idx], b, 0) {
+			good = false
+		}
+	})
+	return good && n > 0
 }
 
 func isGrammarNode(t types.Type) bool {
